@@ -371,6 +371,9 @@ def gen_cut_base(seed, opts=None):
                     sc['dlen'] = min(sc['dlen'], 70)
                     sc['mlen'] = min(sc['mlen'], 20) if sc.get('mlen') else sc.get('mlen')
         plan['client']['keepalive_ms'] = 1_000_000
+    for ep in ('client', 'server'):
+        if rng.random() < 0.3:
+            plan[ep]['on_close'] = _pick(rng, [(2, ['sleep', _pick(rng, [(1, 0.001), (1, 0.05), (1, 1.0)])]), (1, ['hops', rng.randint(1, 5)])])
     plan['horizon'] = 8.0
     plan['settle'] = 4.0
     plan['nontrivial'] = True
@@ -484,4 +487,36 @@ def gen_frag_grid(seed, opts=None):
                 {'id': 4, 'kind': 'channel', 'by': 'server', 'at': 0.0, 'req': req, 'pub': None, 'sub': {'initial_n': MAXN, 'refill': [MAXN]},
                  'resp': {'src': 'manual', 'count': 1, 'lens': lens, 'end': 'flag'}},
             ]}
+    return plan
+
+
+def gen_core_close(seed, opts=None):
+    """Requests that need no answer, followed closely by an orderly close() of the sending endpoint,
+    with a peer whose handlers take their time (so data and EOF pile up in its read buffer)."""
+    opts = dict(opts or {})
+    rng = random.Random(seed ^ 0xC105E)
+    opts.setdefault('kinds', [(4, 'fnf'), (2, 'push')])
+    opts.setdefault('n_interactions', [(1, 1), (2, 3), (2, 6), (1, 10)])
+    opts.setdefault('framing', [(1, 'tcp')])
+    opts.setdefault('stall_faults', 0.0)
+    opts.setdefault('stall_bias', 0.1)
+    opts.setdefault('keepalive', False)
+    who = _pick(rng, [(2, 'client'), (1, 'server')])
+    opts['by'] = [(1, who)]
+    plan = gen_core(seed, opts)
+    plan['profile'] = opts.get('name', 'core-close')
+    last = 0.0
+    for ia in plan['interactions']:
+        ia['by'] = who
+        ia['at'] = round(rng.uniform(0, 0.004), 5)
+        last = max(last, ia['at'])
+        if rng.random() < 0.7:
+            ia['hslow'] = _pick(rng, [(1, 0.002), (2, 0.005), (1, 0.02)])
+    peer = 'server' if who == 'client' else 'client'
+    plan[peer]['read_buf'] = _pick(rng, [(2, 1024), (1, 64), (1, 6 * 1024 * 1024)])
+    plan['faults'] = [{'kind': 'close', 'who': who, 'at': round(0.01 + last + _pick(rng, [(2, 0.0005), (2, 0.003), (1, 0.02)]), 5),
+                       'hops': rng.randint(0, 3)}]
+    plan['horizon'] = 3.0
+    plan['settle'] = 2.0
+    plan['nontrivial'] = True
     return plan
